@@ -28,10 +28,6 @@ import (
 	"github.com/polynetwork/poly/core/types"
 )
 
-type prop struct { // a proposal identity: proposer id (equivocating variants share it)
-	P uint32
-}
-
 type vote struct {
 	P     uint32
 	Empty bool
@@ -541,7 +537,7 @@ func TestC41(t *testing.T) {
 	r.Assume("commit msgs for P are counted for P whether or not they are for the empty block, as the statement speaks of 'the same proposal'")
 	r.Assume("the Server under the pool is minimal: only Index, config, currentParticipantConfig, peerPool, chainStore height are populated — exactly the fields BlockPool and Server.isEndorser read; sealing is observed through addSignaturesToBlockLocked (setBlockSealed additionally needs a ledger)")
 	rng := r.Rand("c41")
-	nWorlds := r.N(1500, 60000)
+	nWorlds := r.N(1500, 480000)
 	for wi := 0; wi < nWorlds; wi++ {
 		w := newWorld(r, rng)
 		if w == nil {
